@@ -16,17 +16,65 @@ def nat(harness, part, variant="native", **kw):
     return d
 
 
+SC_NOTE = "Explores sequentially consistent interleavings at atomic-operation granularity (2-8 threads, bounded programs); weak-memory-only failures are C10's subject. Sampled, not enumerated. Linux futex back end, small tuning constants (spin 16, wake group 2) in the quick tier."
+E1_ASSUME = ["dsched serialises threads and models futex/mutex/condvar/semaphore/clock per their specifications; schedule points = atomic operations and blocking calls",
+             "SC interleavings only; plain-memory races and weak-memory reorderings are checked by C10 (TSan)"]
+
+
+def pool_check(title, text, parts, ref, technique=None, note=None):
+    return dict(title=title, level="exploration",
+                technique=technique or "program-level PBT: generated pool programs (producers, task sets, bulk/FQ submissions, nested waits, resizes) run under generated schedules by the dsched explorer; oracle = ledger / barrier / monitor over the execution",
+                text=text, note=note or SC_NOTE, design_ref=ref, parts=parts, assumptions=E1_ASSUME)
+
+
 CHECKS = {
+    "C01": pool_check("Every task handed to a ThreadPool runs exactly once",
+                      "Generated multi-producer programs over schedule / schedule(FQ) / scheduleBulk (external and in-pool producers, pools of 0-6 threads, wake and poll mode) under generated interleavings; ledger oracle: after ~ThreadPool returns every submitted functor ran exactly once and none starts later.",
+                      [e1("pool", "prog")], "§4 C01"),
+    "C02": pool_check("Task-set wait is a completion barrier",
+                      "Programs with TaskSet / ConcurrentTaskSet (light, heavy), single/bulk/FQ submissions, shared sets, nested sets and parallel_for; at the return of every wait(), tryWait()==true and destructor all tasks submitted before have finished, each body ran once.",
+                      [e1("pool", "prog")], "§4 C02"),
+    "C03": pool_check("Pool resize never loses, duplicates or strands work",
+                      "C02-style programs with a concurrent resizer thread (grow, shrink, zero); ledger + barrier + termination oracle (explorer deadlock report, fair-schedule livelock confirmation).",
+                      [e1("pool", "prog")], "§4 C03"),
+    "C04": pool_check("Cancelled task sets start no further task bodies",
+                      "Generated cancellation scenarios: trigger (cancel(), throwing task, parent cascade) x set kind x submission form (single, bulk, FQ) x load (idle, gated+saturated pool, pool-recursive overloaded caller) x scenario (submit after cancel returned / queued behind gates then cancelled); oracle: no forbidden body runs, wait() reports cancellation.",
+                      [e1("pool", "cancel")], "§4 C04",
+                      technique="scenario-family PBT under dsched schedules; oracle = forbidden-body counter (bodies whose submission began after cancel() returned, or that were queued behind gates at cancel time)"),
+    "C05": pool_check("Task exceptions are captured and rethrown exactly once",
+                      "Programs whose set tasks throw tagged exceptions on inline and queued paths; exception ledger: every delivered tag was thrown, none delivered twice, a wait that observes completion of a set with a captured exception rethrows, none rethrown without a capture, barrier intact.",
+                      [e1("pool", "prog")], "§4 C05"),
+    "C06": pool_check("Nested waits never deadlock through pool starvation",
+                      "Acyclic nesting programs (tasks creating child sets / parallel_for and waiting, depth <= 3, heavy and light costs, idle phases so workers park) on pools of 0-6 threads; termination oracle: explorer deadlock report or fair-schedule livelock confirmation is a violation, budget overrun is inconclusive.",
+                      [e1("pool", "prog")], "§4 C06"),
+    "C07": pool_check("Submissions to an idle pool start without the sleep backstop",
+                      "All workers parked (virtual sleep, checked), one producer submits by one of 12 paths; virtual-time oracle: if the explorer has to jump the clock to a worker's idle-sleep deadline before all submitted work has started, the start depended on the backstop. Exact, no wall clock. Failures are classified by where the unstarted work sat (hook H2).",
+                      [e1("pool", "idle")], "§4 C07",
+                      technique="PBT over (pool size, submission path, task count) x generated schedules and futex-wake victim choices under dsched's virtual clock; oracle = no virtual-time jump to a worker backstop before all work started"),
+    "C08": pool_check("Pool work accounting returns to zero at quiescence",
+                      "Generated history (task sets, bulk ring submissions racing resize) brought to quiescence, then a black-box probe: with all workers gated, count the schedule() calls before the first inline run and compare with a fresh pool of the same size and multiplier.",
+                      [e1("pool", "probe")], "§4 C08",
+                      technique="differential PBT: inline-threshold of the pool after a generated history vs a fresh pool (same child process), histories run under dsched schedules"),
+    "C09": pool_check("Pool shutdown and resize always complete",
+                      "Workers driven into generated state mixes (busy, spinning, parking, parked), then ~ThreadPool / resize / setSignalingWake; oracle: returns without any virtual-time jump to a worker backstop (wake mode), within 50 ms virtual (poll mode), explorer thread table shows exactly the new configuration's workers alive.",
+                      [e1("pool", "stop")], "§4 C09",
+                      technique="PBT over worker-state mixes x stop/resize/mode-switch under dsched's virtual clock; oracle = no backstop jump + thread-table census + deadlock/livelock detector"),
+    "C46": pool_check("Inline task execution never grows the stack without bound",
+                      "Chains of L tasks each scheduling the next under overload (pool.schedule, TaskSet, ConcurrentTaskSet light/heavy, bulk); metamorphic oracle: the per-thread nesting depth for a 6-10x longer chain may not exceed depth(L)+4 unless it stays under an absolute constant (48).",
+                      [e1("pool", "chain")], "§4 C46",
+                      technique="metamorphic PBT (chain length L vs scale*L) with a per-thread nesting counter, executed under dsched"),
+    "C47": pool_check("ForceQueuingTag never runs the functor on the caller",
+                      "C01/C02-style programs on pools >= 1 thread with small load multipliers (inline paths reachable); each force-queued body checks it is not running on its submitter before the submitting call returned.",
+                      [e1("pool", "prog")], "§4 C47"),
     "C21": dict(
         title="CompletionEvent and Latch waits never miss a wakeup",
         level="exploration",
         technique="stateful PBT over generated latch/event programs, schedules generated by the dsched explorer (real code, serialised threads, modelled futex); oracle = early-return monitor + deadlock detector",
         text="Generated programs (2-4 threads, latch counts 1-8, count_down(n>1), arrive_and_wait, wait, try_wait; 1-4 event waiters) are executed under thousands of generated interleavings, futex-wake orders and spurious futex returns; a missed wakeup shows as an explorer deadlock report, an early return through the started-decrements monitor.",
-        note="Sequentially consistent interleavings at atomic-operation granularity only; Linux futex back end only; sampled, not enumerated.",
+        note=SC_NOTE,
         design_ref="§4 C21",
         parts=[e1("sync", "latch"), e1("sync", "event")],
-        assumptions=["dsched models futex WAIT/WAKE per futex(2) (value compare, arbitrary wake order, spurious returns allowed)",
-                     "SC interleavings of atomic operations; weak-memory effects are C10's subject"],
+        assumptions=E1_ASSUME,
     ),
 }
 
